@@ -7,6 +7,7 @@ package main
 
 import (
 	"bytes"
+	"path/filepath"
 	"encoding/json"
 	"fmt"
 	"net/http"
@@ -61,17 +62,20 @@ func decodeJSON(b []byte) any {
 }
 
 // modelled phases (names as reported by the sink)
-var modelledPhases = map[string]bool{"normalizeRef": true, "removeUnusedShared": true, "nameInlinedSchemas": true, "namePointers": true, "removeUnused": true, "stripOAIGen": true}
+var modelledPhases = map[string]bool{"normalizeRef": true, "removeUnusedShared": true, "nameInlinedSchemas": true, "namePointers": true, "removeUnused": true, "stripOAIGen": true, "importReferences": true}
 
 // extTables: the seeded tables of external functions for one case.
 type extTables struct {
+	dir     string // the bundle on disk (for resolving $refs into auxiliary documents with the real library)
+	rootDoc *spec.Swagger
+	resolve M
 	mkRef, jsonName, goName, fold, statusText M
 	refTokens                                 M
 	formats                                   map[string]bool
 }
 
 func newExtTables() *extTables {
-	t := &extTables{mkRef: M{}, jsonName: M{}, goName: M{}, fold: M{}, statusText: M{}, refTokens: M{}, formats: map[string]bool{}}
+	t := &extTables{resolve: M{}, mkRef: M{}, jsonName: M{}, goName: M{}, fold: M{}, statusText: M{}, refTokens: M{}, formats: map[string]bool{}}
 	for code := 100; code < 600; code++ {
 		t.statusText[strconv.Itoa(code)] = http.StatusText(code)
 	}
@@ -83,7 +87,7 @@ func (t *extTables) toJSON() M {
 	for f := range t.formats {
 		fm = append(fm, f)
 	}
-	return M{"mkRef": t.mkRef, "jsonName": t.jsonName, "goName": t.goName, "fold": t.fold, "statusText": t.statusText, "refTokens": t.refTokens, "knownFormats": fm}
+	return M{"resolve": t.resolve, "mkRef": t.mkRef, "jsonName": t.jsonName, "goName": t.goName, "fold": t.fold, "statusText": t.statusText, "refTokens": t.refTokens, "knownFormats": fm}
 }
 
 func safeMkRef(s string) (out string, ok bool) {
@@ -99,6 +103,26 @@ func safeMkRef(s string) (out string, ok bool) {
 // answer computes one external function with the real libraries; false when the function has no value there.
 func (t *extTables) answer(fn, arg string) bool {
 	switch fn {
+	case "resolve":
+		// spec.ResolveRefWithBase(root, ref, {RelativeBase: <dir>/root.json}) with the bundle on disk
+		if t.dir == "" || t.rootDoc == nil {
+			return false
+		}
+		real := strings.ReplaceAll(arg, "$DIR", t.dir)
+		ref, err := spec.NewRef(real)
+		if err != nil {
+			return false
+		}
+		sch, err := spec.ResolveRefWithBase(t.rootDoc, &ref, &spec.ExpandOptions{RelativeBase: filepath.Join(t.dir, "root.json")})
+		if err != nil || sch == nil {
+			return false
+		}
+		b, err := json.Marshal(sch)
+		if err != nil {
+			return false
+		}
+		t.resolve[arg] = decodeJSON(scrubDir(b, t.dir))
+		return true
 	case "mkRef":
 		if v, ok := safeMkRef(arg); ok {
 			t.mkRef[arg] = v
@@ -156,6 +180,12 @@ func (t *extTables) seed(doc any) {
 			if r, ok := x["$ref"].(string); ok && r != "" {
 				if _, done := t.refTokens[r]; !done {
 					t.answer("refTokens", r)
+				}
+				if !strings.HasPrefix(r, "#") {
+					if _, done := t.resolve[r]; !done {
+						t.answer("resolve", r)
+					}
+					t.answer("mkRef", r)
 				}
 			}
 			if f, ok := x["format"].(string); ok && knownFormat(f) {
@@ -279,6 +309,13 @@ func phasesDecide(cases []*Case) ([]Finding, map[string]int) {
 			continue
 		}
 		pc := &phasesCase{c: c, ext: newExtTables()}
+		if aux := auxOf(get(c.In, "bundle", "aux")); len(aux) > 0 {
+			if dir, err := writeBundle(get(c.In, "bundle", "root"), aux, nil); err == nil {
+				pc.ext.dir = dir
+				pc.ext.rootDoc, _ = loadSwagger(get(c.In, "bundle", "root"))
+				defer os.RemoveAll(dir)
+			}
+		}
 		for _, ph := range phs {
 			pc.ext.seed(get(ph, "doc"))
 		}
@@ -374,7 +411,7 @@ func phasesDecide(cases []*Case) ([]Finding, map[string]int) {
 			name := pc.names[i]
 			if name == "pipeline" {
 				if e, _ := get(outs[i], "err").(string); strings.HasPrefix(e, "not modelled") {
-					stats["pipeline:not-modelled-remote-refs"]++
+					stats["pipeline:not-modelled"]++
 					continue
 				}
 				stats["pipeline:compared"]++
@@ -447,7 +484,8 @@ func comparePhase(name string, mo, implDoc, implNewRefs any, mk func(kind, detai
 		if !jsonEq(md, implDoc) {
 			return ret(mk("correspondence", "phase "+name+": model and implementation produce different documents: "+firstDiff(md, implDoc), "doc-differs"))
 		}
-		if d := newRefsDiff(get(mo, "ok", "newRefs"), implNewRefs); d != "" {
+		// the bookkeeping is discarded when Flatten returns: for the whole pipeline only the document counts
+		if d := newRefsDiff(get(mo, "ok", "newRefs"), implNewRefs); d != "" && name != "pipeline" {
 			return ret(mk("correspondence", "phase "+name+": model and implementation keep different newRefs bookkeeping: "+d, "newrefs-differ"))
 		}
 		return nil
